@@ -201,7 +201,9 @@ fn enumerated() -> Vec<String> {
         }
     }
     // every string kind x introducer form x terminator form x a few payloads
-    let payloads = ["", "x", "0;title with spaces", "8;;http://e.x/\u{e9}\u{4e16}", "\r\n\t\x08\x00\x1f", "1;2$q m;;\x7f", "\u{a0}\u{10ffff}", "[31mNOT A CSI[H"];
+    let payloads = ["", "x", "0;title with spaces", "8;;http://e.x/\u{e9}\u{4e16}", "\r\n\t\x08\x00\x1f", "1;2$q m;;\x7f", "\u{a0}\u{10ffff}", "[31mNOT A CSI[H",
+        // characters whose low 8 / 16 bits are BEL, CAN, SUB, ESC, ST, CSI or a final: text, not controls
+        "a\u{20007}b\u{2001b}c\u{2009c}d", "\u{1009b}2J\u{10018}x\u{1001a}y\u{10090}z", "\u{107}\u{11b}\u{19c}\u{49b}2J\u{418}", "\u{e007}\u{f01b}[H\u{ff9c}w"];
     for (i7, i8, osc) in [("\x1b]", "\u{9d}", true), ("\x1bP", "\u{90}", false), ("\x1bX", "\u{98}", false), ("\x1b^", "\u{9e}", false), ("\x1b_", "\u{9f}", false)] {
         for intro in [i7, i8] {
             for term in ["\x1b\\", "\u{9c}", "\x07"] {
